@@ -9,12 +9,17 @@ Definition is_nil {A : Type} (l : list A) : bool := match l with [] => true | _ 
    a value starting with a double or back quote (the parser would unquote it) and, for the last pair of the line only
    ([last]), a value ending in '}' (the braces pass would take it for the closing brace of the line).
    [fx] = false is the earlier line(), which printed all of those raw. *)
-Definition tag_needs_quote_v (fx last : bool) (v : bytes) : bool :=
+Definition LF : byte := x0a.
+(* [nl] = true is the code since the line-break repair: also a value holding a line feed (a {tags} literal of an LQL
+   statement is one token of one line: the lexer's class does not span lines); [nl] = false printed it raw *)
+Definition tag_needs_quote_v (fx nl last : bool) (v : bytes) : bool :=
   is_nil v || has EQ v || has COMMA v ||
-  (fx && (first_is SP v || last_is SP v || starts_quoted v || (last && last_is RBR v))).
+  (fx && (first_is SP v || last_is SP v || starts_quoted v || (last && last_is RBR v))) ||
+  (nl && has LF v).
 (* the variant on the tree *)
 Definition code_quote_edges : bool := true.
-Definition tag_needs_quote : bool -> bytes -> bool := tag_needs_quote_v code_quote_edges.
+Definition code_quote_linebreak : bool := true.
+Definition tag_needs_quote : bool -> bytes -> bool := tag_needs_quote_v code_quote_edges code_quote_linebreak.
 
 (* k1=v1,k2=v2,...  (names and already rendered values) *)
 Fixpoint join_pairs (l : list (bytes * bytes)) : bytes :=
@@ -33,10 +38,10 @@ Definition sort_keys (ord : list bytes) : list bytes := fold_left insert_key ord
 Definition get_or_empty (k : bytes) (m : kvmap) : bytes := match map_get k m with Some v => v | None => [] end.
 
 Section WithQuote.
-  Variable fx : bool.
+  Variable fx nl : bool.
   Variable quote : bytes -> bytes.
 
-  Definition tag_val_v (last : bool) (v : bytes) : bytes := if tag_needs_quote_v fx last v then quote v else v.
+  Definition tag_val_v (last : bool) (v : bytes) : bytes := if tag_needs_quote_v fx nl last v then quote v else v.
 
   (* the printing loop over the sorted keys: the pair with i == len(srtKeys)-1 is the last one *)
   Fixpoint render_v (l : list (bytes * bytes)) : list (bytes * bytes) :=
@@ -56,11 +61,11 @@ Section WithQuote.
 End WithQuote.
 
 (* the code *)
-Definition tag_val := tag_val_v code_quote_edges.
-Definition render := render_v code_quote_edges.
-Definition line_ord := line_ord_v code_quote_edges.
-Definition line := line_v code_quote_edges.
-Definition print_tags := print_tags_v code_quote_edges.
+Definition tag_val := tag_val_v code_quote_edges code_quote_linebreak.
+Definition render := render_v code_quote_edges code_quote_linebreak.
+Definition line_ord := line_ord_v code_quote_edges code_quote_linebreak.
+Definition line := line_v code_quote_edges code_quote_linebreak.
+Definition print_tags := print_tags_v code_quote_edges code_quote_linebreak.
 
 (* kvstring.MapSubset / tag.Set.SubsetOf *)
 Definition map_subset (m1 m2 : kvmap) : bool :=
@@ -118,6 +123,9 @@ Definition quote_fact_ok (v q : bytes) : bool := if is_nil v then bytes_eqb q [Q
 Definition unquote_fact_ok (s : bytes) (r : option bytes) : bool :=
   if bytes_eqb s DQ_X || bytes_eqb s BQ_X then option_eqb bytes_eqb r (Some [x78]) else true.
 
+(* strconv.Quote escapes a line feed (and every other control byte): its literal is one line; evaluated by the
+   correspondence check on every recorded answer, like quote_ok *)
+Definition QuoteNoLF (quote : bytes -> bytes) : Prop := forall v, has LF (quote v) = false.
 Definition QuoteSpec (quote : bytes -> bytes) (unquote : bytes -> option bytes) : Prop :=
   forall v, quote_ok v (quote v) (unquote (quote v)) = true.
 Definition OracleFacts (quote : bytes -> bytes) (unquote : bytes -> option bytes) : Prop :=
